@@ -252,11 +252,15 @@ namespace
             }
             else if (expect_completion) { out.line({7, blocked_idx, 3}); }  // still blocked although it should not be
         };
+        bool stop_requested = false;
         auto room = [&] {
             if (!started) { return true; }  // a stopped source releases blocked senders
             if (w.policy == 2 || w.cap == 0) { return true; }
             return pending_items(w) < (i64)w.cap;
         };
+        // the harness's expectation that a blocking send has to wait (decides only how long it is
+        // given before it is recorded as blocked; a wrong guess cannot turn into a false alarm)
+        auto would_block = [&](bool blocking, i64 h) { return blocking && h == 0 && started && !stop_requested && !room(); };
 
         i64 idx = 0;
         for (std::size_t li = 1; li < c.size(); ++li, ++idx)
@@ -275,12 +279,12 @@ namespace
                 else if (h == 1 && w.senders.size() >= 2) { s = w.senders[w.senders.size() - 2]; }
                 i64 r;
                 if (p <= 0 || (std::size_t)p > nprod) { r = do_send(s, v, blocking); }
-                else if (blocked && (blocked_prod == p || (blocking && !room() && h == 0))) { r = 8; }
+                else if (blocked && (blocked_prod == p || would_block(blocking, h))) { r = 8; }
                 else
                 {
                     if (!workers[p]) { workers[p] = std::make_unique<Worker>(); }
                     auto       fut        = workers[p]->submit([s, v, blocking] { return do_send(s, v, blocking); });
-                    const bool may_block  = blocking && h == 0 && !room();
+                    const bool may_block  = would_block(blocking, h);
                     const auto wait       = may_block ? std::chrono::milliseconds{25} : std::chrono::seconds{STALL_S};
                     if (fut.wait_for(wait) == std::future_status::ready) { r = fut.get(); }
                     else
@@ -296,9 +300,8 @@ namespace
             }
             else if (code == 3)
             {
-                if (!started) { out.line({3, idx, -1}); continue; }
+                if (!started) { out.line({13, idx}); continue; }
                 now += std::max<i64>(1, l.size() > 1 ? l[1] : 1);
-                const std::size_t nd0 = w.deliveries.size();
                 const i64         se0 = w.source_evals.load();
                 i64               err = 0;
                 try { graph.evaluate(dt(now)); }
@@ -308,17 +311,28 @@ namespace
                     std::fprintf(stderr, "evaluate: %s\n", e.what());
                 }
                 settle_blocked(room());
-                for (std::size_t i = nd0; i < w.deliveries.size(); ++i)
                 {
-                    Line d{5, w.deliveries[i].time - t0};
-                    for (i64 x : w.deliveries[i].values) { d.push_back(x); }
-                    out.line(d);
+                    // the delivery of this cycle, read off the push source's own output (a graph
+                    // that was stopped has its edges torn down, so a sink would see nothing after
+                    // a restart; restart is "not supported by design", see graph.cpp start_impl)
+                    auto o = graph.node_at(0).output(dt(now));
+                    if (o.valid() && o.last_modified_time() == dt(now))
+                    {
+                        Line d{5, now - t0};
+                        if (w.policy == 1)
+                        {
+                            auto list = o.value().as_list();
+                            for (std::size_t i = 0; i < list.size(); ++i) { d.push_back(list[i].checked_as<Int>()); }
+                        }
+                        else { d.push_back(o.value().checked_as<Int>()); }
+                        out.line(d);
+                    }
                 }
                 out.line({3, idx, err, w.source_evals.load() - se0, pending_items(w), flag(w)});
             }
             else if (code == 4)
             {
-                if (!started) { out.line({4, idx, -1}); continue; }
+                if (!started) { out.line({14, idx}); continue; }
                 i64 err = 0;
                 try { graph.stop(dt(now)); }
                 catch (const std::exception &e)
@@ -332,7 +346,7 @@ namespace
             }
             else if (code == 5)
             {
-                if (started) { out.line({5, idx, -1}); continue; }
+                if (started) { out.line({15, idx}); continue; }
                 i64 err = 0;
                 try { graph.start(dt(now)); }
                 catch (const std::exception &e)
@@ -346,6 +360,7 @@ namespace
             else if (code == 6)
             {
                 view.request_stop();
+                stop_requested = true;
                 out.line({9, idx, w.senders.empty() ? 0 : (w.senders.back().valid() ? 1 : 0), flag(w)});
             }
             else { out.line({99, idx}); }
@@ -461,7 +476,7 @@ namespace
             }
         });
 
-        i64 stop_b = 0, stalled = 0;
+        i64 stop_b = 0, stop_r = 0, stalled = 0;
         auto delivered_count = [&] {
             std::lock_guard lock{w.deliveries_mutex};
             i64             n = 0;
@@ -476,6 +491,7 @@ namespace
             while (accepted.load() < target && std::chrono::steady_clock::now() < t_lim) { std::this_thread::yield(); }
             stop_b = w.ticket.fetch_add(1);
             view.request_stop();
+            stop_r = w.ticket.fetch_add(1);
         }
         for (auto &t : producers) { t.join(); }
         if (stop_mode != 1)
@@ -513,6 +529,7 @@ namespace
             }
             stop_b = w.ticket.fetch_add(1);
             view.request_stop();
+            stop_r = w.ticket.fetch_add(1);
         }
         sampling = false;
         sampler.join();
@@ -529,7 +546,7 @@ namespace
             late.push_back(rec);
         }
 
-        out.line({23, stop_b, stop_e, w.cycles.load(), stalled, run_error.load() ? 1 : 0, stop_mode});
+        out.line({23, stop_b, stop_r, stop_e, w.cycles.load(), stalled, run_error.load() ? 1 : 0, stop_mode});
         for (auto &log : logs)
         {
             for (auto &r : log) { out.line({20, r.p, r.k, r.v, r.blocking, r.result, r.b, r.a}); }
